@@ -283,7 +283,8 @@ pub struct BinaryExpr {
 
 impl fmt::Display for BinaryExpr {
     fn fmt(&self, f: &mut fmt::Formatter) -> fmt::Result {
-        write!(f, "{}{}{}", self.left, self.operator, self.right)
+        // parenthesised: the text is pasted into macro bodies and parsed again
+        write!(f, "({}{}{})", self.left, self.operator, self.right)
     }
 }
 
